@@ -5,6 +5,8 @@ import Driver.V5
 import Driver.Json
 import Driver.CacheFile
 import Driver.Sflow
+import Driver.Mirror
+import Driver.Options
 open Driver Vflow
 
 /-- driver state: one model template cache per protocol, reset by `new` -/
@@ -38,6 +40,8 @@ def handle (st : DState) (line : String) : DState × String :=
   | ["elem", p, i] => (st, elemLine p i)
   | ["sflow", f, d] => (st, sflowLine f d)
   | ["dissect", p, h] => (st, dissectLine p h)
+  | ["options", env, file, args] => (st, optionsLine env file args)
+  | ["mirror", proto, src, dst, port, max, payload] => (st, mirrorLine proto src dst port max payload)
   | _ => (st, "bad-op")
 
 partial def loop (h : IO.FS.Stream) (out : IO.FS.Stream) (st : DState) : IO Unit := do
